@@ -116,3 +116,91 @@ pub fn h_c15_ref_move_column() {
     check("C15.ref_col_move.follows_cell", designates(&s, &r, &ctx, row, ncol));
     reach("C15.ref_col_move");
 }
+
+// ---------------------------------------------------------------------------------------------
+// Ranges: the real tree printer (`to_string_displaced` -> `stringify`) on a `Node::RangeKind` with symbolic
+// corners.  Both corners follow the edit map (so a range whose interior receives the new lines grows), a
+// corner on a deleted line is #REF!, and whole-column / whole-row ranges (A:B, 3:7) stay what they are.
+
+use super::stringify::to_string_displaced;
+use super::Node;
+use crate::language::get_default_language;
+use crate::locale::get_default_locale;
+
+struct Rg { a: R, b: R, r1: i32, c1: i32, r2: i32, c2: i32, whole_cols: bool, whole_rows: bool }
+
+/// kind 0: ordinary range with arbitrary in-grid corners; 1: whole-column range ($1..$LAST_ROW); 2: whole-row range
+fn any_range(ctx: &CellReferenceRC, mr: i32, mc: i32) -> Rg {
+    let kind = any_u8();
+    assume(kind < 3);
+    let (mut r1, mut c1, mut r2, mut c2) = (any_i32_in(1, mr), any_i32_in(1, mc), any_i32_in(1, mr), any_i32_in(1, mc));
+    let (mut ar1, mut ac1, mut ar2, mut ac2) = (any_bool(), any_bool(), any_bool(), any_bool());
+    if kind == 1 { r1 = 1; r2 = LAST_ROW; ar1 = true; ar2 = true; }
+    if kind == 2 { c1 = 1; c2 = LAST_COLUMN; ac1 = true; ac2 = true; }
+    let whole_cols = ar1 & ar2 & (r1 == 1) & (r2 == LAST_ROW);
+    let whole_rows = ac1 & ac2 & (c1 == 1) & (c2 == LAST_COLUMN);
+    let a = R { abs_row: ar1, abs_col: ac1, row: if ar1 { r1 } else { r1 - ctx.row }, col: if ac1 { c1 } else { c1 - ctx.column } };
+    let b = R { abs_row: ar2, abs_col: ac2, row: if ar2 { r2 } else { r2 - ctx.row }, col: if ac2 { c2 } else { c2 - ctx.column } };
+    Rg { a, b, r1, c1, r2, c2, whole_cols, whole_rows }
+}
+
+fn range_node(g: &Rg, sheet_index: u32) -> Node {
+    Node::RangeKind { sheet_name: None, sheet_index,
+        absolute_row1: g.a.abs_row, absolute_column1: g.a.abs_col, row1: g.a.row, column1: g.a.col,
+        absolute_row2: g.b.abs_row, absolute_column2: g.b.abs_col, row2: g.b.row, column2: g.b.col }
+}
+
+/// expected text of one corner: printed by the corner printer with no edit at its mapped position
+fn corner(r: &R, ctx: &CellReferenceRC, pos: Option<(i32, i32)>, whole_cols: bool, whole_rows: bool) -> String {
+    match pos {
+        None => "#REF!".to_string(),
+        Some((row, col)) => {
+            let moved = Reference { sheet_name: &None, sheet_index: 0, absolute_row: r.abs_row, absolute_column: r.abs_col,
+                row: if r.abs_row { row } else { row - ctx.row }, column: if r.abs_col { col } else { col - ctx.column } };
+            stringify_reference(Some(ctx), &DisplaceData::None, &moved, whole_cols, whole_rows)
+        }
+    }
+}
+
+/// the edit map on a line number: ins = true: insert k at p; ins = false: delete k at p
+fn edit_map(x: i32, ins: bool, p: i32, k: i32) -> Option<i32> { if ins { Some(pi_insert(x, p, k)) } else { pi_delete(x, p, k) } }
+
+fn range_case(d: &DisplaceData, same_sheet: bool, rows: bool, ins: bool, p: i32, k: i32, mr: i32, mc: i32, id: &'static str) {
+    let ctx = CellReferenceRC { sheet: "S".to_string(), row: any_i32_in(1, mr), column: any_i32_in(1, mc) };
+    let g = any_range(&ctx, mr, mc);
+    let sheet = if same_sheet { 3 } else { 4 };
+    let got = to_string_displaced(&range_node(&g, sheet), &ctx, d, get_default_locale(), get_default_language());
+    // a whole-column range has no row part to displace (and a whole-row range no column part)
+    let frozen = !same_sheet || (rows && g.whole_cols) || (!rows && g.whole_rows);
+    let p1 = if frozen { Some((g.r1, g.c1)) } else if rows { edit_map(g.r1, ins, p, k).map(|r| (r, g.c1)) } else { edit_map(g.c1, ins, p, k).map(|c| (g.r1, c)) };
+    let p2 = if frozen { Some((g.r2, g.c2)) } else if rows { edit_map(g.r2, ins, p, k).map(|r| (r, g.c2)) } else { edit_map(g.c2, ins, p, k).map(|c| (g.r2, c)) };
+    let ok1 = match p1 { Some((r, c)) => r <= LAST_ROW && c <= LAST_COLUMN, None => true };
+    let ok2 = match p2 { Some((r, c)) => r <= LAST_ROW && c <= LAST_COLUMN, None => true };
+    if ok1 && ok2 {
+        let want = format!("{}:{}", corner(&g.a, &ctx, p1, g.whole_cols, g.whole_rows), corner(&g.b, &ctx, p2, g.whole_cols, g.whole_rows));
+        check(id, got == want);
+    }
+}
+
+/// quick bound: ordinary corners, context cell, position and count inside rows 1..=120 and columns 1..=30 (A..AD);
+/// whole-column / whole-row ranges always use the real grid limits.  The off-grid boundary of a single
+/// corner is covered by the h_*_ref_* harnesses over the whole grid.
+const QR: i32 = 120;
+const QC: i32 = 30;
+
+fn range_rows(ins: bool, mr: i32, mc: i32, id: &'static str) {
+    let (p, k, same) = (any_i32_in(1, mr), any_i32_in(1, mr), any_bool());
+    range_case(&DisplaceData::Row { sheet: 3, row: p, delta: if ins { k } else { -k } }, same, true, ins, p, k, mr, mc, id);
+}
+fn range_cols(ins: bool, mr: i32, mc: i32, id: &'static str) {
+    let (p, k, same) = (any_i32_in(1, mc), any_i32_in(1, mc), any_bool());
+    range_case(&DisplaceData::Column { sheet: 3, column: p, delta: if ins { k } else { -k } }, same, false, ins, p, k, mr, mc, id);
+}
+pub fn h_c12_range_insert_rows() { range_rows(true, QR, QC, "C12.range_rows.corners_follow"); reach("C12.range_rows"); }
+pub fn h_c12_range_insert_columns() { range_cols(true, QR, QC, "C12.range_cols.corners_follow"); reach("C12.range_cols"); }
+pub fn h_c13_range_delete_rows() { range_rows(false, QR, QC, "C13.range_rows.corners_follow"); reach("C13.range_rows"); }
+pub fn h_c13_range_delete_columns() { range_cols(false, QR, QC, "C13.range_cols.corners_follow"); reach("C13.range_cols"); }
+pub fn ht_c12_range_insert_rows_grid() { range_rows(true, LAST_ROW, QC, "C12.range_rows.corners_follow"); reach("C12.range_rows_grid"); }
+pub fn ht_c12_range_insert_columns_grid() { range_cols(true, QR, LAST_COLUMN, "C12.range_cols.corners_follow"); reach("C12.range_cols_grid"); }
+pub fn ht_c13_range_delete_rows_grid() { range_rows(false, LAST_ROW, QC, "C13.range_rows.corners_follow"); reach("C13.range_rows_grid"); }
+pub fn ht_c13_range_delete_columns_grid() { range_cols(false, QR, LAST_COLUMN, "C13.range_cols.corners_follow"); reach("C13.range_cols_grid"); }
